@@ -33,7 +33,13 @@ import time
 
 from zv import core
 
-HARNESS_FLAGS = ["-w", "-Wl,--wrap=malloc,--wrap=calloc,--wrap=free"]
+HARNESS_FLAGS = ["-w", "-Wl,--wrap=malloc,--wrap=calloc,--wrap=free,--wrap=realloc,--wrap=pthread_create,--wrap=pthread_mutex_init,--wrap=pthread_cond_init"]
+
+
+def harness_sources():
+    """c13_fault.c + the two translation units of contrib/seekable_format (plain malloc / realloc / free users)"""
+    sk = os.path.join(core.REPO, "contrib", "seekable_format")
+    return ["c13_fault.c", os.path.join(sk, "zstdseek_compress.c"), os.path.join(sk, "zstdseek_decompress.c")]
 
 # scenarios whose whole call sequence is replayed through the model (everything that is single threaded and goes
 # through operations AllocInstances.v transcribes, incl. the unit-level calls of POOL_*, ZSTDMT_createCCtx_advanced,
@@ -45,13 +51,20 @@ TIED_PREFIXES = ("cctx_", "compress_", "load_dict_", "cdict_", "cstream", "unit_
 
 MAX_REPORT = 6
 
+# scenarios of the quick tier's debug-build sweep
+DBG_PREFIXES = ("unit_pool_3_4", "unit_mtctx_2", "unit_mtresize_a", "mt_oneshot", "mt_stream", "mt_ldm", "mt_resize", "mt2_threadpool",
+                "train_opt_")
+
 
 # --------------------------------------------------------------------------
 # building / running
 
-def build_harness(variant):
-    return core.build_harness("c13_fault", ["c13_fault.c"], variant=variant, extra_flags=HARNESS_FLAGS,
-                              libs=("-lpthread",), lib_exclude=["zstdmt_compress.c", "pool.c"])
+def build_harness(variant, extra_defs=()):
+    if variant == "dbg":   # -DDEBUGLEVEL=1: asserts on, and lib/common/threading.c allocates every mutex / condition with ZSTD_malloc
+        variant, extra_defs = "o1", tuple(extra_defs) + ("-DDEBUGLEVEL=1",)
+    return core.build_harness("c13_fault", harness_sources(), variant=variant, extra_flags=HARNESS_FLAGS, extra_defs=extra_defs,
+                              libs=("-lpthread",), lib_exclude=["zstdmt_compress.c", "pool.c"],
+                              extra_inc=[os.path.join(core.REPO, "contrib", "seekable_format")])
 
 
 def harness_env(timeout_s):
@@ -135,7 +148,7 @@ def judge(d):
         out.append(("foreign-free", "%d pointer(s) not obtained from the custom allocator handed to the custom free" % d["foreign"]))
     if d.get("viol"):
         out.append(("api", d.get("violtxt", "")))
-    if d.get("optional") and not str(d.get("s", "")).startswith("train_"):
+    if d.get("optional") and not (str(d.get("s", "")).startswith(("train_", "thr_opt_")) and not [t for t in d.get("ev", "").split() if t[0] == "u"]):
         # the trainers degrade gracefully by design (a candidate / a sample whose allocation failed is skipped); every other
         # operation must report the failure
         out.append(("not-reported", "an allocation failed inside a call that nevertheless returned success: "
@@ -143,10 +156,38 @@ def judge(d):
     return out
 
 
-def finding_key(d, cls):
+def finding_key(d, cls, variant="o1"):
     """stable keys of defects that were found on the unchanged tree (matched against known_findings.json)"""
-    if d.get("s") == "train_fastcover" and cls in ("crash", "sanitizer"):
+    sc = str(d.get("s", ""))
+    bad = cls in ("crash", "sanitizer", "timeout", "exit")
+    if sc == "train_fastcover" and cls in ("crash", "sanitizer"):
         return "fastcover-segmentFreqs-null"
+    site = failing_site(d)
+    ff = ([t for t in d.get("ev", "").split() if t[0] in "Nnu"] or [""])[0]   # the first refused request, e.g. "n5:40"
+    if sc.startswith("legacy_"):
+        # attempts inside one ZSTD_decompressStream call that switches the legacy version: context, inner context, inBuff, outBuff
+        if sc == "legacy_versions" and d.get("k") == [3]:
+            return "zbuffv05-create-unchecked-dctx"
+        if site and site[1] <= 2 and sc == "legacy_versions":
+            return "legacy-stream-context-dangling-after-failed-version-switch"
+        return "legacy-stream-stale-buffer-size"
+    if sc.startswith("seekable_"):
+        if cls == "leak":
+            return "seekable-reinit-leaks-seek-table"
+        if cls == "api" and "seekable_decompress" in d.get("violtxt", ""):
+            return "seekable-decompress-keeps-position-after-error"
+        return None
+    if sc.startswith("thr_opt_") and (bad or cls == "not-reported") and ff.startswith("u"):
+        return "cover-best-init-ignores-mutex-init"
+    if sc.startswith("thr_") and cls == "wrong-deallocator":
+        return "pool-create-mutex-init-failure"
+    if variant == "dbg" and bad:
+        if d.get("signal") == 6 and ff.startswith("N"):
+            return "mtctx-create-jobs-table-assert"
+        if ff.startswith("n") and ff.split(":")[-1] in ("40", "48"):   # sizeof(pthread_mutex_t), sizeof(pthread_cond_t)
+            if sc.startswith("train_opt_") and int(ff[1:].split(":")[0]) > 5:   # requests 3..5 are the pool's own mutex / conditions
+                return "cover-best-init-ignores-mutex-init"
+            return "pool-create-mutex-init-failure"
     return None
 
 
@@ -159,10 +200,10 @@ def failing_site(d):
             cur, n = t[1:].split(":")[0], 0
         elif c == "]":
             cur = None
-        elif c in "AaNn":
+        elif c in "AaNntu":
             n += 1
-            if c in "Nn":
-                return (cur or "-", n, c == "n")
+            if c in "Nnu":
+                return (cur or "-", n, c in "nu")
     return None
 
 
@@ -198,7 +239,7 @@ def parse_real(ev):
     return calls, stray
 
 
-def renumber(calls, stray):
+def renumber(calls, stray, plain_custom=False):
     """custom-allocator events only, block ids = ordinal among custom allocation attempts (the model's numbering).
     Returns (faults, live) and rewrites call['cev'] = [('A',size,ok) | ('F',id)]"""
     order = {}
@@ -212,6 +253,8 @@ def renumber(calls, stray):
             allev.append((c, e))
     for c, e in allev:
         k = e[0]
+        if plain_custom:   # legacy decoders: libc malloc / free are the allocator of the modelled object
+            k = {"a": "A", "n": "N", "f": "F"}.get(k, k)
         if k in "AN":
             n += 1
             order[e[1]] = n
@@ -225,7 +268,7 @@ def renumber(calls, stray):
             i = order.get(e[1], -e[1])
             live.discard(i)
             c["cev"].append(("F", i))
-        elif k in "afnd":
+        elif k in "afndtu":
             c["plain"] += 1
         else:   # D double free, X/Y/Z foreign, P/Q custom block to libc free: oracle violations; kept visible in the trace
             c["cev"].append(("F", -1000 - e[1]))
@@ -321,8 +364,9 @@ def same_groups(gr, gm):
     return True
 
 
-def compare(calls, live, mres):
+def compare(calls, live, mres, opmap=None, check_live=True):
     """first difference between the real calls and the model result, or None"""
+    opmap = OPMAP if opmap is None else opmap
     mcalls = parse_model(mres["trace"])
     if mres["errs"]:
         return "the model itself reports an ownership error on this call sequence: " + mres["errs"]
@@ -334,14 +378,90 @@ def compare(calls, live, mres):
         if not same_groups(gr, gm):
             return "call #%d %s: allocation / free events differ: real %s model %s" % (i + 1, c["name"], gr, gm)
         res = c["res"]
-        if res is not None and res != "" and c["name"] in OPMAP:   # unmodelled calls: only "no allocator event" is predicted
+        if res is not None and res != "" and c["name"] in opmap:   # unmodelled calls: only "no allocator event" is predicted
             rok = res == "ok"
             if rok != mok:
                 return "call #%d %s: status differs: real %s model %s" % (i + 1, c["name"], res, "ok" if mok else "error")
     mlive = set(int(x) for x in mres["live"].split(",") if x)
-    if mlive != live:
+    if check_live and mlive != live:
         return "live set at the end differs: real %s model %s" % (sorted(live), sorted(mlive))
     return None
+
+
+# legacy stream decoders (coq/Mem/AllocLegacy.v): scenarios replayed through AllocLegacy.run_lops
+LEGACY_TIED = ("legacy_v07", "legacy_switch")
+LOPMAP = {"createDCtx": lambda c: "1", "freeDCtx": lambda c: "2", "lstream": lambda c: "3:0,0"}
+
+
+def tie_legacy(mexe, cases, scratch, tag):
+    """cases: list of (d, calls, faults, live).  The model draws three data-dependent decisions per legacy frame (version
+    switch, inBuff too small, outBuff too small); they are not reconstructed from the trace but SEARCHED call by call: the
+    real behaviour of call i must be among the model's 8 behaviours for it, given the decisions already fixed for the
+    earlier calls.  Returns [(d, first difference, model case text, model trace)] for the cases that cannot be matched."""
+    st = []
+    for d, calls, faults, live in cases:
+        stray_calls = [c for c in calls if c["name"] not in LOPMAP and c["cev"]]
+        mc = [c for c in calls if c["name"] in LOPMAP]
+        st.append(dict(d=d, calls=mc, faults=faults, live=live, chosen="", dead=None, lidx=[i for i, c in enumerate(mc) if c["name"] == "lstream"],
+                       early="a call the model does not know touches the allocator: %s %s" % (stray_calls[0]["name"], stray_calls[0]["cev"][:4]) if stray_calls else None))
+    bad = []
+    rounds = max([len(x["lidx"]) for x in st] + [0])
+    for r in range(rounds + 1):
+        batch = []
+        for ci, x in enumerate(st):
+            if x["dead"] or x["early"]:
+                continue
+            if r < len(x["lidx"]):
+                upto = x["lidx"][r]
+                for combo in range(8):
+                    ch = x["chosen"] + format(combo, "03b")
+                    batch.append(("%d-%d" % (ci, combo), x["faults"], ch, ";".join(LOPMAP[c["name"]](c) for c in x["calls"][:upto + 1]), ci, upto, ch))
+            elif r == len(x["lidx"]) and not x.get("final"):
+                x["final"] = True
+                batch.append(("%d-f" % ci, x["faults"], x["chosen"] or "-", ";".join(LOPMAP[c["name"]](c) for c in x["calls"]), ci, None, x["chosen"]))
+        if not batch:
+            continue
+        inp = "".join("LCASE %s|%s|%s|%s\n" % (b[0], ",".join(str(k) for k in b[1]) if b[1] else "-", b[2] or "-", b[3]) for b in batch)
+        path = os.path.join(scratch, "model-legacy-%s-%d.in" % (tag, r))
+        with open(path, "w") as f:
+            f.write(inp)
+        rc, out, err = core.sh("%s < %s" % (mexe, path), timeout=600)
+        if rc != 0 or "TOTAL" not in out:
+            raise RuntimeError("C13 model driver failed on the legacy cases rc=%d: %s" % (rc, (out[-300:] + err[-500:])))
+        res = {}
+        for ln in out.split("\n"):
+            if ln.startswith("RES "):
+                cid, trace, mlive, errs = ln[4:].split("|")
+                res[cid] = dict(trace=trace, live=mlive, errs=errs)
+        byc = {}
+        for b in batch:
+            byc.setdefault(b[4], []).append(b)
+        for ci, bs in byc.items():
+            x = st[ci]
+            if bs[0][5] is None:   # the whole run with the decisions found: every call, the final live set
+                m = res.get(bs[0][0])
+                diff = "no model result" if m is None else compare(x["calls"], x["live"], m, opmap=LOPMAP)
+                if diff:
+                    x["dead"] = (diff, "LCASE x|%s|%s|%s" % (",".join(map(str, x["faults"])) or "-", x["chosen"] or "-", bs[0][3]), (m or {}).get("trace", ""))
+                continue
+            first = None
+            for b in bs:
+                m = res.get(b[0])
+                diff = "no model result" if m is None else compare(x["calls"][:b[5] + 1], None, m, opmap=LOPMAP, check_live=False)
+                if diff is None:
+                    x["chosen"] = b[6]
+                    break
+                if first is None:
+                    first = (diff, "LCASE x|%s|%s|%s" % (",".join(map(str, b[1])) or "-", b[2], b[3]), (m or {}).get("trace", ""))
+            else:
+                x["dead"] = ("none of the model's 8 behaviours of this call matches (decisions of the earlier calls: %s); with all three tests false: %s"
+                             % (x["chosen"] or "-", first[0]), first[1], first[2])
+    for x in st:
+        if x["early"]:
+            bad.append((x["d"], x["early"], "", ""))
+        elif x["dead"]:
+            bad.append((x["d"],) + x["dead"])
+    return bad
 
 
 def run_model(mexe, cases, scratch, tag):
@@ -381,6 +501,7 @@ class Batch:
         if res is None:
             res = run_many(self.exe, jobs, timeout_s, wall)
         cases = []
+        lcases = []
         allocs_of = {}
         for args, lines, err, rc in res:
             if rc not in (0,) or not lines:
@@ -411,7 +532,17 @@ class Batch:
                     faults, live = renumber(calls, stray)
                     cid = "%s-%d-%d" % (tag, self.nb, len(cases))
                     cases.append((cid, faults, model_case(calls), d, calls, live, stray))
+                if tie and sc.startswith(LEGACY_TIED) and "signal" not in d and "ev" in d:
+                    calls, stray = parse_real(d["ev"])
+                    faults, live = renumber(calls, stray, plain_custom=True)
+                    lcases.append((d, calls, faults, live))
         ctx.notes.setdefault("allocs_per_scenario", {}).update(allocs_of)
+        if lcases:
+            for d, diff, mcase, mtrace in tie_legacy(self.mexe, lcases, ctx.scratch, "%s-%d" % (tag, self.nb)):
+                self.tie_breaks.append((dict(kind="tie", scenario=d["s"], k=d.get("k", []), variant=self.variant, first_difference=diff,
+                                             model_case=mcase, real_events=d.get("ev", "")[:3000], model_trace=mtrace[:3000]), diff))
+            ctx.cov["traces_validated_against_impl"] += len(lcases)
+            ctx.notes["legacy_cases_tied"] = ctx.notes.get("legacy_cases_tied", 0) + len(lcases)
         if cases:
             mres, formulas = run_model(self.mexe, [(c[0], c[1], c[2]) for c in cases], ctx.scratch, "%s-%d" % (tag, self.nb))
             if formulas is False and "formulas" not in self.reported:
@@ -431,15 +562,17 @@ class Batch:
 
     def report_oracle(self, d, hit):
         cls, txt = hit
-        key = (d.get("s"), cls, txt[:60])
+        fk = finding_key(d, cls, self.variant)
+        key = ("finding", fk, "") if fk else (d.get("s"), cls, txt[:60])   # a finding with a stable key is reported once (per batch)
         self.oracle_hits.append((d, hit))
-        if key in self.reported or len(self.reported) >= MAX_REPORT:
+        if key in self.reported or (not fk and len([k for k in self.reported if k[0] != "finding"]) >= MAX_REPORT):
             return
         self.reported.add(key)
         replay = dict(kind="fault", scenario=d.get("s"), k=d.get("k", []), variant=self.variant,
                       observed=dict(cls=cls, detail=txt, calls=d.get("ops", "")[-1500:], events=d.get("ev", "")[-3000:], stderr=d.get("stderr_tail", "")))
         self.ctx.violation(replay, what="C13 violated on the real code: scenario %s with allocation(s) %s failing: %s: %s"
-                           % (d.get("s"), d.get("k", []), cls, txt[:300]), key=finding_key(d, cls))
+                           % (d.get("s"), d.get("k", []), cls, txt[:300]) + (" [library built with -DDEBUGLEVEL=1]" if self.variant == "dbg" else ""),
+                           key=fk)
 
     def report_ties(self):
         """a broken tie is reported once per scenario; when the direct oracle already produced a concrete failing case for
@@ -497,10 +630,20 @@ def run(ctx):
     ctx.notes["scenarios"] = len(scens)
     ctx.notes["exhaustive_over_k_for_every_scenario"] = True
     # 2. multithreaded scenarios again (the allocation order there depends on the thread schedule)
-    mt = [(n, h) for n, h in scens if n.startswith(("mt_", "train_opt"))]
+    mt = [(n, h) for n, h in scens if n.startswith(("mt_", "mt2_", "thr_mt_", "thr_threadpool", "train_opt"))]
     for rep in range(3 if ctx.quick else 30):
         b.process([["sweep", n] for n, h in mt], "mt%d" % rep, timeout_s=40 if ctx.quick else 90, wall=900, tie=False)
     core.log("C13: + MT repeats: %.1fs" % (time.time() - t0))
+    # 2b. debug build (-DDEBUGLEVEL=1): every mutex / condition is one more libc allocation of the library (threading.c) and the
+    # asserts are compiled in: the pool / multithreaded / threaded-trainer scenarios, every k (direct oracle only: the model
+    # does not know those extra allocations)
+    exd = build_harness("dbg")
+    bd = Batch(ctx, exd, mexe, "dbg")
+    dbg_scens = [(n, h) for n, h in scens if n.startswith(DBG_PREFIXES)] if ctx.quick else [(n, h) for n, h in scens if not n.startswith("thr_")]
+    bd.process(jobs_for(dbg_scens, rng, ctx.quick, 0 if ctx.quick else 50), "dbg", timeout_s=40 if ctx.quick else 90, wall=900, tie=False)
+    b.oracle_hits += bd.oracle_hits
+    ctx.notes["debug_build_scenarios"] = len(dbg_scens)
+    core.log("C13: + debug-build sweep: %.1fs" % (time.time() - t0))
     # 3. proof step
     ctx.prove()
     core.log("C13: + proof step: %.1fs" % (time.time() - t0))
